@@ -72,7 +72,7 @@ class C17Engine(C10.C10Engine):
             r = f()
         except Exception as ex:
             got = type(ex).__name__
-            if got != want:
+            if got not in (want if isinstance(want, tuple) else (want,)):
                 raise Violation(PROP, "refuse", {"after": ctx, "cell": cell, "probe": probe, "expected": want,
                                                  "raised": repr(ex)[:200]}, f"refuse:{cell}:{probe}:raised-{got}")
             self.count(f"fault:{cell}")
@@ -352,6 +352,15 @@ class C17Engine(C10.C10Engine):
             try:
                 self.expect_raises(cell, "ref.sql", lambda: real[r].sql, TNF, ctx)
                 self.expect_raises(cell, "ref.dbml", lambda: real[r].dbml, TNF, ctx)
+                if side == "col2" and real[r].inline and not extra and len(m[r]["col1"]) == 1:
+                    # an inline reference is rendered as a setting of its col1 column: rendering the column (and
+                    # the table around it) renders the reference, so it has to be refused there as well
+                    oc = m[r]["col1"][0]
+                    ot = m[oc]["table"]
+                    if ot is not None and m[ot]["db"] == db and oc != c:
+                        # (another reference of the database may be hit first and be refused as mixed)
+                        self.expect_raises(cell, "owner-column.dbml", lambda: real[oc].dbml, (TNF, DBE), ctx)
+                        self.expect_raises(cell, "owner-table.dbml", lambda: real[ot].dbml, (TNF, DBE), ctx)
             finally:
                 if saved_attr:
                     setattr(real[c], saved_attr[0], saved_attr[1])
@@ -419,6 +428,19 @@ class C17Engine(C10.C10Engine):
                 self.expect_raises(cell, "ref.table1", lambda: o.table1, DBE, ctx)
                 self.expect_raises(cell, "ref.table2", lambda: o.table2, DBE, ctx)
                 self.expect_raises(cell, "ref.dbml", lambda: o.dbml, DBE, ctx)
+                if inl and side == "col1" and parts[1] in ("ctor", "assign-list"):
+                    # contained in the database, the inline reference is reached through its col1 columns
+                    try:
+                        rdb.add(o)
+                        added = True
+                    except Exception:
+                        added = False
+                    if added:
+                        try:
+                            self.expect_raises(cell, "owner-column.dbml", lambda: ca.dbml, (DBE, TNF), ctx)
+                        finally:
+                            rdb.refs[:] = [x for x in rdb.refs if x is not o]
+                            o.database = None
             finally:
                 heal()
             return
